@@ -42,7 +42,7 @@ _K = ["--known", 1]
 SPEC = dict(
     level="exploration",
     rule="Trees: (parsed) every DOM obtained by parsing, with namespaces on and entity-reference nodes off/on, each well-formed word of length <= 3 over a "
-         "55-token document alphabet (elements, namespace declarations incl. xmlns='', attributes with escapes/char refs/non-ASCII, text tokens, CDATA, comments, "
+         "51-token document alphabet (quick: k<=2 under all 288 configurations and k<=3 under the 90 core configurations; thorough: k<=3 under all 288) (elements, namespace declarations incl. xmlns='', attributes with escapes/char refs/non-ASCII, text tokens, CDATA, comments, "
          "PIs, XML declarations 1.0/1.1/standalone, four DOCTYPEs incl. internal subsets with entities, notations and a default attribute, entity references); "
          "(built) every tree built on an empty document or on a parsed DTD-bearing base document by <= n construction steps over {4 doctype forms, 6 element names "
          "(a, p:a bound, q:a unbound, default-ns a{ud}, U+00E9, p:b), UP, 4 attribute names (x, p:x, q:x, q:y in another namespace) x data, Text/CDATA/Comment/PI x data, "
@@ -82,7 +82,8 @@ SPEC = dict(
             dict(name="params", driver="c12_ser", args=["--space", "params"] + _K),
             dict(name="fmt", driver="c12_ser", args=["--space", "fmt"] + _K),
             dict(name="data-k2", driver="c12_ser", args=["--space", "data", "--k", 2] + _K),
-            dict(name="parsed-k3", driver="c12_ser", args=["--space", "parsed", "--k", 3] + _K),
+            dict(name="parsed-k2-full", driver="c12_ser", args=["--space", "parsed", "--k", 2] + _K),
+            dict(name="parsed-k3-core", driver="c12_ser", args=["--space", "parsed", "--k", 3, "--configs", "core"] + _K),
             dict(name="built-n2-full", driver="c12_ser", args=["--space", "built", "--steps", 2] + _K),
             dict(name="built-n3-mini-core", driver="c12_ser", args=["--space", "built", "--steps", 3, "--dataset", "mini", "--configs", "core"] + _K),
         ],
